@@ -283,7 +283,48 @@ def rule_type_domain(ctx):
     ctx.floor("C06.d typed select items", n, 20)
 
 
+def rule_precision_pattern(ctx):
+    """C06.e: the pattern that reads precision and scale out of DECIMAL(p,s) captures whole digit runs."""
+    import re._parser as sre_parse  # type: ignore[import-not-found]
+
+    prog = ctx.prog
+    m = prog.mod("types")
+    n = 0
+    for qual, fn in m.functions.items():
+        for c in ast.walk(fn):
+            if not (isinstance(c, ast.Call) and isinstance(c.func, ast.Attribute) and isinstance(c.func.value, ast.Name) and c.func.value.id == "re"
+                    and c.args and isinstance(c.args[0], ast.Constant) and isinstance(c.args[0].value, str)):
+                continue
+            pat = c.args[0].value
+            try:
+                parsed = sre_parse.parse(pat)
+            except Exception:  # noqa: BLE001
+                continue
+            groups = [av for op, av in parsed if str(op) == "SUBPATTERN"]
+            if parsed.state.groups - 1 < 2:
+                continue
+            n += 1
+            bad = []
+            for gi, g in enumerate(groups, 1):
+                inner = list(g[3])
+                whole = len(inner) == 1 and str(inner[0][0]) == "MAX_REPEAT" and inner[0][1][1] > 9 and any(
+                    "CATEGORY_DIGIT" in str(x) for x in inner[0][1][2])
+                if not whole:
+                    bad.append(gi)
+            # a repeat applied to a capture group keeps only the last repetition
+            rep_groups = [1 for op, av in parsed if str(op) == "MAX_REPEAT" and any(str(o2) == "SUBPATTERN" for o2, _ in av[2])]
+            ok = not bad and not rep_groups
+            ctx.ob("C06.e", f"{qual}: precision/scale pattern `{pat}` captures whole digit runs", ok, m.loc(c))
+            if not ok:
+                ctx.violation("C06.e", "types", qual, c, m.loc(c),
+                              f"the pattern `{pat}` that extracts precision and scale from DuckDB's DECIMAL(p,s) does not capture the whole "
+                              f"digit run in each group: NUMBER(20,10) is reported with a wrong precision/scale in description while the "
+                              f"fetched Decimals have the real one")
+    ctx.floor("precision/scale patterns", n, 1)
+
+
 RULES = [
+    ("C06.e", rule_precision_pattern, ("quick", "thorough")),
     ("C06.a", rule_last_statement, ("quick", "thorough")),
     ("C06.b", rule_describable, ("quick", "thorough")),
     ("C06.c", rule_pure, ("quick", "thorough")),
